@@ -56,6 +56,8 @@ fn main() {
                 "C03" => c03::run("C03", tier, seed),
                 "C05" => c03::run("C05", tier, seed),
                 "T" => tdebug(&pos, tier),
+                "BF2" => bf2(&pos),
+                "REF" => refq(&pos),
                 _ => {
                     eprintln!("unknown property {id}");
                     2
@@ -70,6 +72,12 @@ fn main() {
 fn tdebug(pos: &[String], tier: Tier) -> i32 {
     let pat = pos.get(1).cloned().unwrap_or_default();
     let t0 = std::time::Instant::now();
+    if std::env::var("VERIF_LIST").is_ok() {
+        for c in cases::all_cases(tier, 0).iter().filter(|c| c.label.contains(&pat) && c.in_law) {
+            println!("{}", c.label);
+        }
+        return 0;
+    }
     let (ma, prs) = prims::build_macros(if tier == Tier::Quick { 1 << 11 } else { 1 << 14 }, 1 << 9);
     for (i, pr) in prs.iter().enumerate() {
         let k = pr.grid.k();
@@ -84,15 +92,85 @@ fn tdebug(pos: &[String], tier: Tier) -> i32 {
         eprintln!("prim {} execs={} nodes={} resid={:e} bad={:e} words={:.4} maxdev={:e} at {} (err bound there {:e}) max err={:e} flat atoms={} t={:.1}s", i + 1, pr.cnt.execs, pr.cnt.nodes, pr.res.resid, pr.res.bad, pr.res.words, worst.0, worst.1, worst.2,
             pr.res.err.iter().zip(pr.res.err_hi.iter()).map(|(a, b)| a.min(*b)).fold(0.0, f64::max), ma.flat[&((i + 1) as u8)].len(), t0.elapsed().as_secs_f64());
     }
+    if std::env::var("VERIF_PROFILE").is_ok() {
+        std::thread::spawn(move || loop {
+            std::thread::sleep(std::time::Duration::from_secs(4));
+            let rss = std::fs::read_to_string("/proc/self/statm").ok().and_then(|s| s.split_whitespace().nth(1).and_then(|x| x.parse::<u64>().ok())).unwrap_or(0) * 4096 / (1 << 20);
+            eprintln!("RSS {}MB at {:.0}s", rss, t0.elapsed().as_secs_f64());
+        });
+    }
     let macros = std::sync::Mutex::new(ma);
     let cases = cases::all_cases(tier, 0);
     use rayon::prelude::*;
     let sel: Vec<&cases::Case> = cases.iter().filter(|c| c.label.contains(&pat) && c.in_law).collect();
-    let outs: Vec<lawcheck::LawOutcome> = sel.par_iter().filter_map(|c| lawcheck::check_case(c, &macros, tier)).collect();
+    if std::env::var("VERIF_LIST").is_ok() {
+        for c in &sel {
+            println!("{}", c.label);
+        }
+        return 0;
+    }
+    let outs: Vec<lawcheck::LawOutcome> = sel.par_iter().filter_map(|c| {
+        let o = lawcheck::check_case(c, &macros, tier);
+        let rss = std::fs::read_to_string("/proc/self/statm").ok().and_then(|s| s.split_whitespace().nth(1).and_then(|x| x.parse::<u64>().ok())).unwrap_or(0) * 4096 / (1 << 20);
+        if let Some(o) = &o {
+            eprintln!("done {} rss={}MB at={:.1}s took={:.2}s execs={} ok={} ratio={:.3} vl={} resid={:.1e}", c.label, rss, t0.elapsed().as_secs_f64(), o.wall_s, o.cnt.execs, o.ok, o.worst_ratio, o.vlevels, o.resid);
+        }
+        o
+    }).collect();
     for o in &outs {
         println!("{:70} ok={} judged={} ratio={:.3} dev={:.2e} tol={:.2e} at={:.4e} maxdev={:.2e} resid={:.1e} bad={:.1e} words={:.3} vl={} execs={} nodes={} memo={} t={:.2}s {}",
             o.label, o.ok, o.judged, o.worst_ratio, o.worst_dev, o.worst_tol, o.worst_at, o.max_abs_dev, o.resid, o.bad, o.words, o.vlevels, o.cnt.execs, o.cnt.nodes, o.cnt.memo_hits, o.wall_s, o.note);
     }
     eprintln!("total {:.1}s", t0.elapsed().as_secs_f64());
+    0
+}
+
+/// debug: brute-force product lattice over the first two words of a restart-at-root sampler
+fn bf2(pos: &[String]) -> i32 {
+    let pat = pos.get(1).cloned().unwrap_or_default();
+    let n: u64 = pos.get(2).and_then(|s| s.parse().ok()).unwrap_or(2048);
+    let cases = cases::all_cases(Tier::Quick, 0);
+    let c = cases.iter().find(|c| c.label.contains(&pat)).expect("case");
+    let s = (c.build)().unwrap();
+    let mut acc: std::collections::BTreeMap<i64, f64> = Default::default();
+    let mut rej = 0.0;
+    let mut more = 0.0;
+    for i in 0..n {
+        for j in 0..n {
+            let w1 = (((2 * i + 1) << 52) / n) << 11 | 0x400;
+            let w2 = (((2 * j + 1) << 52) / n) << 11 | 0x400;
+            let e = exec::run(&*s, &[w1, w2], 1, false);
+            if e.overrun || e.requests != 2 {
+                if e.requests == 1 { if let exec::Outcome::Done(sm) = e.out { *acc.entry(sm.v as i64).or_insert(0.0) += 1.0; continue; } }
+                // rejected (third word requested) or other
+                let e2 = exec::run(&*s, &[w1, w2], 2, false);
+                if e2.out != e.out { rej += 1.0; } else { more += 1.0; }
+                continue;
+            }
+            if let exec::Outcome::Done(sm) = e.out { *acc.entry(sm.v as i64).or_insert(0.0) += 1.0; }
+        }
+    }
+    let tot: f64 = acc.values().sum();
+    let mut cum = 0.0;
+    let cdf = match &c.law { cases::Law::Disc { cdf, .. } | cases::Law::Cont { cdf, .. } => cdf.clone(), _ => panic!() };
+    println!("accepted {} rejected {} other {}", tot, rej, more);
+    for (k, v) in &acc {
+        cum += v;
+        println!("k={k} L={:.6} F={:.6} diff={:+.2e}", cum / tot, cdf(*k as f64), cum / tot - cdf(*k as f64));
+    }
+    0
+}
+
+/// debug: evaluate the reference cdf of a case at given points
+fn refq(pos: &[String]) -> i32 {
+    let pat = pos.get(1).cloned().unwrap_or_default();
+    let cases = cases::all_cases(Tier::Quick, 0);
+    let c = cases.iter().find(|c| c.label.contains(&pat)).expect("case");
+    let cdf = match &c.law { cases::Law::Disc { cdf, .. } | cases::Law::Cont { cdf, .. } => cdf.clone(), _ => panic!() };
+    println!("{}", c.label);
+    for x in pos.iter().skip(2) {
+        let t: f64 = x.parse().unwrap();
+        println!("cdf({t:e}) = {:.17e}", cdf(t));
+    }
     0
 }
